@@ -1382,6 +1382,9 @@ func (e *Enc) mapValueInv(mt *types.Map, k, v string) string {
 	var cs []string
 	for _, mi := range e.P.reg.MapInvs {
 		pkg := e.P.tpkgs[mi.Pkg]
+		if pkg == nil {
+			continue // package not part of this program
+		}
 		t, err := e.evalType(mi.TypeText, pkg)
 		if err != nil {
 			e.errors = append(e.errors, fmt.Sprintf("%s: mapvalues: %v", mi.Src, err))
